@@ -25,6 +25,10 @@ COQ_HEADER = ("From Coq Require Import List NArith ZArith Bool.\nImport ListNota
 SHARD = 6
 IMPL_TIMEOUT = 1500
 COQ_TIMEOUT = 1500
+# CPU budget of one impl(case) in the worker process (oracle: 2x, thorough tier: 4x; harness/main.py).  Measured: the heaviest case of
+# the quick tier 7 CPU-s (18 before heavy cases were trimmed to three writings); by construction at most HUGE_RAW = 1500 results x
+# 70 atoms x 9 reactor runs x 1.2e-4 s = 113 s for a case that is only judged by the oracle.  The histories run in other processes.
+CASE_CPU_LIMIT = 400
 STRATS = {"all": 0, "comp": 1, "bt": 2}
 MAX_GLUED = 120            # per (variant, strategy): beyond this only the oracle sees the case
 MAX_RAW = 400
@@ -233,6 +237,8 @@ def impl(case):
     pre = case.get("pre")
     if pre is not None and ("error" in pre or "outside" in pre):
         return ["SKIP"]
+    if pre is not None and pre.get("big"):
+        return ["SKIP"]         # judged by the oracle only (no model term): the adapter's observable would not be compared with anything
     if case.get("mode") in PARTIAL_MODES:
         return _impl_partial(case)
     if (case.get("opts") or {}).get("embed_pre_filter"):
